@@ -2,6 +2,9 @@
 values chosen relative to a preferred size assignment, trees, function specs and operation trees.
 Everything produced is plain JSON-able data."""
 
+import re
+
+_BRACES = re.compile(r"\{[^}]*\}")
 NAMES = ("a", "b", "c", "n", "m")
 SIZES = (0, 1, 2, 3, 4, 5, 7)
 SYMBOLIC = ("a+1", "2*a", "a-1", "a*b", "min(a,b)", "a+b")
@@ -48,7 +51,7 @@ def dims_text(tokens):
 
 class Gen:
     def __init__(self, rnd, names=NAMES[:3], sizes=(1, 2, 3, 4), var_names=("v", "w"), allow_sym=True,
-                 allow_q=False, max_tokens=4, sym_args=()):
+                 allow_q=False, max_tokens=4, sym_args=(), sym_exprs=None):
         self.rnd = rnd
         self.names = names
         self.sizes = sizes
@@ -57,6 +60,7 @@ class Gen:
         self.allow_q = allow_q
         self.max_tokens = max_tokens
         self.sym_args = sym_args
+        self.sym_exprs = sym_exprs
         self.anns = {}
         self.fns = {}
         self._ann_index = {}
@@ -80,7 +84,7 @@ class Gen:
         if x < 0.86:
             return {"kind": "anon", "name": r.choice(("", "", "zz"))}
         if self.allow_sym:
-            exprs = list(SYMBOLIC) + ["{" + a + "}" for a in self.sym_args]
+            exprs = self.sym_exprs or (list(SYMBOLIC) + ["{" + a + "}" for a in self.sym_args])
             return {"kind": "sym", "expr": r.choice(exprs), "b": r.random() < 0.2}
         return {"kind": "named", "name": r.choice(self.names), "b": False, "q": False}
 
@@ -134,9 +138,7 @@ class Gen:
                 s = r.choice(self.sizes)
             elif k == "sym":
                 try:
-                    e = t["expr"]
-                    for a in self.sym_args:
-                        e = e.replace("{" + a + "}", str(pref.get("{" + a + "}", 2)))
+                    e = _BRACES.sub(lambda m: str(pref.get(m.group(0), 2)), t["expr"])
                     s = int(eval(e, {"min": min, "max": max}, dict(pref)))
                     if s < 0:
                         s = 0
